@@ -382,7 +382,9 @@ def verify_unit(unit_loader, timeout_ms=10000, jobs=8, use_cvc5=False):
                         continue
                     for b in std:
                         bm, bcn = eng.src_class(b)
-                        if bcn is not None and any(isinstance(x, _ast.FunctionDef) and x.name == n.name for x in bcn.body):
+                        # (an @abstractmethod of the mixin is a hole the class is meant to fill, not inherited behaviour)
+                        if bcn is not None and any(isinstance(x, _ast.FunctionDef) and x.name == n.name
+                                                   and not any("abstractmethod" in _ast.dump(d_) for d_ in x.decorator_list) for x in bcn.body):
                             flagged.add((cname, n.name))
                             skeletons.append(({"target": "%s.%s" % (rc, n.name), "concrete": cname, "obligations": [], "status": "stale-contract",
                                                "detail": "%s.%s (line %d) overrides the standard-library mixin %s.%s for %s but no contract of "
